@@ -21,7 +21,10 @@ _state = {'audit_installed': False, 'monitor_installed': False, 'rec': None}
 
 
 def _pat_json(pat):
-    """operator_dict keys: unary -> key tuple; n-ary -> tuple of key tuples."""
+    """operator_dict keys: unary -> key tuple; n-ary -> tuple of key tuples.  A key that is not a tuple (e.g. a
+    generator) is never iterated by the observer: it is logged as the marker pattern [[-1]]."""
+    if not isinstance(pat, (tuple, list)):
+        return [[-1]]
     if pat and isinstance(pat[0], (tuple, list)):
         return [[int(k) for k in kt] for kt in pat]
     if pat == () or (pat and isinstance(pat[0], int)):
